@@ -325,7 +325,7 @@ def evaluate(ctx, cases, stream=None):
             fd = f'cols={len(kinds) + 1}' + ('|coded-coordinate' if 'big' in kinds[1:4] else '')
         if case['pos'] == 'frag':
             far = any(abs(float(x)) > 4 for l in case['block'][1:-1] for x in l[2:5])
-            fd = ('short' if len(kinds) == 1 else 'cell') + ('|coordinate-beyond-4' if far else '')
+            fd = ('short' if len(kinds) <= 1 else 'cell') + ('|coordinate-beyond-4' if far else '')
         modes = MODES if st == 'valid' else ['quiet']
         obs = {m: observe(text, m) for m in modes}
         models = {m: next(ans) for m in modes}
@@ -408,7 +408,7 @@ def evaluate(ctx, cases, stream=None):
 
 BODY_POS = ['pre', 'instr', 'atoms', 'post']
 SLOT_POS = dict(titl=['titl'], cell=['cell'], zerr=['zerr'], latt=['latt'], symm=['symm'], neut=['neut'], sfac=['sfac'], disp=['disp'],
-                unit=['unit'], fvar=['fvar'], hklf=['hklf'], end=['end'], tail=['tail'], body=BODY_POS)
+                unit=['unit'], fvar=['fvar'], hklf=['hklf'], end=['end'], tail=['tail'], body=BODY_POS, frag=[], fend=[])
 
 
 def valid_cases(tab, suffixes=('',)):
@@ -447,7 +447,7 @@ def valid_cases(tab, suffixes=('',)):
         for wrap in ([False, True] if len(kinds) >= 11 else [False]):
             out.append(dict(stream='valid', kw='C9', toks=toks, pos='atomline', wrap=wrap))
     # FRAG ... FEND blocks
-    for head in (['FRAG', '17'], ['FRAG', '17', '1', '1', '1', '90', '90', '90'], ['FRAG', '17', '7.5', '8.5', '9.5', '90', '95.5', '90']):
+    for head in (['FRAG'], ['FRAG', '17'], ['FRAG', '17', '1', '1', '1', '90', '90', '90'], ['FRAG', '17', '7.5', '8.5', '9.5', '90', '95.5', '90']):
         for coords in (['0.1', '0.2', '0.3'], ['1.25', '-2.5', '0.75'], ['5.25', '-6.5', '0.75']):
             blk = [head, ['C7', '1'] + coords, ['C8', '1'] + [coords[1], coords[2], coords[0]], ['FEND']]
             out.append(dict(stream='valid', kw='FRAG', toks=head[1:], pos='frag', block=blk))
